@@ -258,6 +258,22 @@ def selections(fparams, method=False):
     undefaulted = [p[0] for p in params if not (p[1] == PK and p[2] is not None)]
     for o in (undefaulted[:1] + ['qq']):
         out.append((["@modifiers.autokwoargs(exceptions=%r)" % ([o],)], set(), set(), False))
+    # two stacked layers (outermost first): plain names over the end=/start= forms and the other way round
+    if len(pk) >= 2:
+        allpk_ = [p[0] for p in fparams if p[1] == PK]
+        first, last = pk[0], pk[-1]
+        po_conv = set(allpk_[:allpk_.index(first) + 1])
+        kw_conv = set(pk[pk.index(last):])
+        defaulted_ = {p[0] for p in params if p[1] == PK and p[2] is not None} - po_conv
+        out.append((["@modifiers.kwoargs(%r)" % last, "@modifiers.posoargs(end=%r)" % first], {last}, po_conv, True))
+        out.append((["@modifiers.posoargs(end=%r)" % first, "@modifiers.kwoargs(%r)" % last], {last}, po_conv, True))
+        out.append((["@modifiers.autokwoargs", "@modifiers.posoargs(end=%r)" % first], defaulted_, po_conv, True))
+        out.append((["@modifiers.posoargs(end=%r)" % first, "@modifiers.kwoargs(start=%r)" % last], kw_conv, po_conv, True))
+        out.append((["@modifiers.kwoargs(start=%r)" % last, "@modifiers.posoargs(end=%r)" % first], kw_conv, po_conv, True))
+        # the keyword-only selection lies *before* the end of the positional-only range: end= is evaluated on
+        # what the inner layer advertises, so the range no longer contains it
+        po_conv2 = set(allpk_[:allpk_.index(last) + 1]) - {first}
+        out.append((["@modifiers.posoargs(end=%r)" % last, "@modifiers.kwoargs(%r)" % first], {first}, po_conv2, True))
     # both kinds at once
     if len(pk) >= 1:
         out.append((["@modifiers.kwoargs(%r)" % pk[0], "@modifiers.posoargs(%r)" % pk[0]], set(), set(), False))
